@@ -86,6 +86,8 @@ type mLog struct {
 	Body int    `json:"body"`
 	H    uint64 `json:"h"`
 	BT   uint64 `json:"bt"`
+	No   uint32 `json:"no"`
+	Tg   uint16 `json:"tg"`
 }
 type mHead struct {
 	T  string      `json:"t"`
@@ -118,6 +120,9 @@ type fwdMsg struct {
 	TS   uint64 `json:"ts"`
 	Em   int    `json:"em"`
 	Seq  uint64 `json:"seq"`
+	No   uint32 `json:"no"`
+	Tg   uint16 `json:"tg"`
+	Ch   uint16 `json:"ch"`
 }
 type group struct {
 	Step int           `json:"step"`
@@ -130,6 +135,7 @@ type histRow struct {
 	Sid     int            `json:"sid"`
 	Cfg     scenCfg        `json:"cfg"`
 	MaxWait uint64         `json:"maxwait"`
+	Chain   uint16         `json:"chain"`
 	Script  []step         `json:"script"`
 	Groups  []group        `json:"groups"`
 	Mon     []string       `json:"mon"`
@@ -400,7 +406,8 @@ func (sc *scen) drain() []fwdMsg {
 		select {
 		case m := <-sc.msgC:
 			f := fwdMsg{Body: bodyOfPayload(m.Payload), Tx: hNum(m.TxHash), CL: int(m.ConsistencyLevel), TS: uint64(m.Timestamp.Unix()),
-				Em: int(m.EmitterAddress[30])<<8 | int(m.EmitterAddress[31]), Seq: m.Sequence}
+				Em: int(m.EmitterAddress[30])<<8 | int(m.EmitterAddress[31]), Seq: m.Sequence,
+				No: m.Nonce, Tg: uint16(m.TargetChain), Ch: uint16(m.EmitterChain)}
 			// field fidelity against the log that was emitted
 			if l := sc.logs[f.Body]; l != nil {
 				if f.Tx != l.Tx || f.Em != l.Em || f.Seq != l.Seq || f.CL != int(l.CL) || m.Nonce != l.Nonce || uint16(m.TargetChain) != l.Target ||
@@ -505,7 +512,8 @@ func (sc *scen) runStep(si int, st *step) {
 			sc.harnessf("step %d: the subscription filter rejected a core-contract log", si)
 			break
 		}
-		logOp = &mLog{T: "log", Tx: st.Tx, BH: st.BH, Em: st.Em, Seq: st.Seq, CL: int(st.CL), Body: st.Body, H: st.Block, BT: blockTimeOf(hID(kindBlock, uint64(st.BH)))}
+		logOp = &mLog{T: "log", Tx: st.Tx, BH: st.BH, Em: st.Em, Seq: st.Seq, CL: int(st.CL), Body: st.Body, H: st.Block, BT: blockTimeOf(hID(kindBlock, uint64(st.BH))),
+			No: l.Nonce, Tg: l.Target}
 		inst := sc.insts[logKey]
 		if inst == nil {
 			inst = &gtInst{log: l, bh: st.BH, block: st.Block}
@@ -645,7 +653,7 @@ func (sc *scen) runStep(si int, st *step) {
 				if l.TopicOther {
 					ml.T0 = evmOtherTopic.Hex()
 				} else {
-					ml.Ev = &mLog{T: "log", Tx: l.Tx, BH: r.BH, Em: l.Em, Seq: l.Seq, CL: int(l.CL), Body: l.Body, H: r.Block}
+					ml.Ev = &mLog{T: "log", Tx: l.Tx, BH: r.BH, Em: l.Em, Seq: l.Seq, CL: int(l.CL), Body: l.Body, H: r.Block, No: l.Nonce, Tg: l.Target}
 				}
 				rc.Logs = append(rc.Logs, ml)
 			}
@@ -975,6 +983,7 @@ func runScenario(sid int, cfg scenCfg, script []step) histRow {
 	}
 	defer sc.stop()
 	row.MaxWait = sc.maxWait
+	row.Chain = uint16(sc.w.chainID)
 	for i := range script {
 		sc.runStep(i, &script[i])
 		if len(sc.harness) > 0 {
